@@ -80,6 +80,8 @@ RECURSIVE At(_, _)
 At(v, path) == IF path = <<>> THEN v ELSE At(v[Head(path)], Tail(path))
 CompAt(slot) == At(Cfg, slot[2])
 
+RewardKeys == {"reward", "reward_on", "reward_off", "reward_per_unit_distance", "reward_closer", "reward_further",
+               "reward_open", "reward_close", "reward_pick", "reward_drop", "reward_good", "reward_bad"}
 TopKeys == {"state_space", "observation_space", "reset_function", "transition_functions", "reward_functions",
             "observation_function", "terminating_function"}
 Desc(kind, path, key, value, verdict) == [kind |-> kind, path |-> path, key |-> key, value |-> value, verdict |-> verdict]
@@ -93,6 +95,11 @@ Corruptions ==
                  : k \in DOMAIN CompAt(s) \ {"name"}} : s \in Slots}
   \* an unknown extra parameter is ignored
   \cup {Desc("add_param", s[2], "no_such_parameter", "1", "accept") : s \in Slots}
+  \* falsy but valid parameter values must be passed on, not treated as absent
+  \cup UNION {{Desc("set_value", s[2], k, "0.0", "accept") : k \in (DOMAIN CompAt(s) \cap RewardKeys)}
+              \cup {Desc("set_value", s[2], k, "false", "accept") : k \in (DOMAIN CompAt(s) \cap {"random_agent", "random_exit"})}
+              \cup {Desc("set_value", s[2], k, "0", "accept") : k \in (DOMAIN CompAt(s) \cap {"num_obstacles"})}
+              : s \in Slots}
   \* malformed shapes
   \cup (IF "shape" \in DOMAIN Cfg.reset_function
           THEN {Desc("set_value", <<"reset_function">>, "shape", v, "reject") :
